@@ -65,7 +65,7 @@ def handle : List String → String
         let d := if det == "1" then some (maybeEncode pl p) else none
         s!"m:{ho mp}:{ho m.prot}:{hex m.signature}:{hex e.signingInput}:{showIt (decodeFlattened (mkP tab) mp m d)}"
     | _, _, _, _, _ => "bad-request"
-  | "general" :: pl :: det :: rest =>
+  | "general" :: pl :: det :: u8 :: rest =>
     match unhex pl with
     | some pl =>
       let (recs, tab) := rest.partition (fun t => !t.startsWith "S=")
@@ -75,6 +75,8 @@ def handle : List String → String
         | .error i => s!"err@{i}"
         | .ok (mp, sigs) =>
           let p0 := match rs with | (p, _, _) :: _ => p | [] => none
+          -- `into_jws`: a non-detached payload must be valid UTF-8 (it is only checked there)
+          if det != "1" && !extractB64 p0 && u8 != "1" then "err-into-jws" else
           let d := if det == "1" then some (maybeEncode pl p0) else none
           let decs := match decodeGeneral (mkP tab) mp sigs d with
             | none => "undecodable"
@@ -83,6 +85,7 @@ def handle : List String → String
           s!"g:{ho mp}:{",".intercalate (sigs.map fun m => ho m.prot ++ "/" ++ hex m.signature)}:{sis} {decs}"
       | _, _ => "bad-request"
     | none => "bad-request"
+  | "doc" :: _ => "impl-only"
   | _ => "bad-request"
 
 end Driver.C08
